@@ -845,9 +845,11 @@ MANIFEST = dict(
         "BucketBatchSampler.__iter__ over its per-index paths (one append to the own bucket, yield+delete paired, "
         "leftovers iff kept), and def-use version rules of the collate functions (sizes from un-padded columns, whole-"
         "item sorting before the unzip, pad values, ids from the same items). Necessary conditions of 'loses nothing / "
-        "len agrees / ids stay attached'; bucket purity over ties and quantile boundaries are not decided."),
+        "len agrees / ids stay attached'. BucketBatchSampler.__iter__ (a generator) and _get_batch_sampler_len are interpreted over plain data "
+        "(sa/pyinterp.py) for 120 (order, bucket map, sizes, drop) cases, twice per sampler: the batches equal the documented ones and the "
+        "reported length is their number; the typestate rules are the fallback. Bucket purity over ties and quantile boundaries are not decided."),
     level_note="Trusted: python ast; torch pad_sequence / DataLoader. F3, F4 (seed chain, prefix default) and F17 (bare-"
                "tensor items bucketed by their first row) were found by these rules and repaired.",
-    technique="static analysis: argument binding, reaching definitions (def-use versions), path typestate, producer/consumer shape protocol, integer interpretation of the per-bucket length contribution; sampler length table (constructor, rank share and __len__ interpreted over the syntax tree)",
+    technique="static analysis: argument binding, reaching definitions (def-use versions), path typestate, producer/consumer shape protocol, integer interpretation of the per-bucket length contribution; sampler length table (constructor, rank share and __len__ interpreted over the syntax tree); bucket sampler batches and reported length by interpretation of the generator over plain data",
     design_ref="DESIGN.md section 4 C14",
 )
